@@ -6,6 +6,7 @@ import MotoModel.Proofs.DiskReadProps
 import MotoModel.Proofs.DiskByte0
 import MotoModel.Proofs.DiskRender
 import MotoModel.Proofs.DiskFewSides
+import MotoModel.Proofs.DiskKindFlag
 namespace Moto.C07
 open Moto Moto.Disk
 
@@ -29,6 +30,16 @@ theorem wellformed_image_extracted_exactly (fl : Flavour) (verbose : Bool) (arch
   intro k hk dir
   obtain ⟨bat, own, inv⟩ := h.2 k hk
   exact ⟨_, spec_files_inv inv, sideFiles_eq_spec inv dir⟩
+
+/-- **C07 (… extracted beside the archive)**: without `--into` the hypothesis on the archive's own path is
+    void — the members are written two levels below the archive's directory (`sideN/NAME.EXT`), none of
+    them can be the archive: any four-sided image of consistent sides with ordinary names is extracted
+    (status 0) as exactly its files -/
+theorem wellformed_image_extracted_beside_archive (fl : Flavour) (verbose : Bool) (archive : Str) (img : Image)
+    (h : ImgOk img) (hn : ∀ k, k < 4 → NiceSide (img.getD k [])) :
+    (extract fl verbose archive none (save fl img)).status = .ret 0
+    ∧ (extract fl verbose archive none (save fl img)).writes = sidesFiles (dirname archive) img 0 :=
+  extract_consistent_default fl verbose archive img h hn
 
 /-- **C07 (emulator images of one or two sides, and four-sided images of either flavour)**: an
     image made of consistent sides with ordinary names — four of them, or one or two for the emulator
@@ -88,5 +99,50 @@ theorem independent_writer_is_read_exactly (a : Spec.Dos.ASide) (h : WFSideDesc 
 theorem generator_domain (a : Spec.Dos.ASide) (h : Spec.Dos.wfDescB a = true) :
     WFSideDesc a ∧ ∀ f ∈ a.files, 255 * (8 * (f.chain.length - 1) + f.lastSectors - 1) + f.lastBytes = f.content.length :=
   wfDescB_sound a h
+
+/-- **C07 (… each with its recorded kind)**: the kind and data-type words printed for a live entry (verbose
+    `--list` / `--extract`) are those of bytes 11 and 12 of the entry as they are on the disk: kind 0..3 =
+    BASIC / DATA / MODULE / TEXT, any other kind byte is shown as DATA; flag FF = ASCII, any other flag =
+    TOKEN for a BASIC program and BINARY otherwise -/
+theorem listed_kind_is_recorded_kind (sd : Side) (own : Nat → List Nat) (bat : List Nat) (j : Nat) (e : Entry) (he : entryAt sd own j = some e) :
+    (evOfEntry bat e).tof = tofString (typeOfFileOfByte ((slotData sd j).getD 11 0))
+    ∧ (evOfEntry bat e).tod = todString (typeOfFileOfByte ((slotData sd j).getD 11 0)) (typeOfDataByteOfByte ((slotData sd j).getD 12 0)) := by
+  unfold entryAt at he
+  split at he
+  · cases he
+    unfold evOfEntry
+    dsimp only
+    rw [recordOfBytes_11, recordOfBytes_12]
+    exact ⟨rfl, rfl⟩
+  · cases he
+
+/-- the words, for every kind byte and flag byte -/
+theorem kind_words (k f : Nat) :
+    tofString (typeOfFileOfByte k) = (if k = 0 then Tape.str "BASIC" else if k = 2 then Tape.str "MODULE" else if k = 3 then Tape.str "TEXT" else Tape.str "DATA")
+    ∧ todString (typeOfFileOfByte k) (typeOfDataByteOfByte f)
+        = (if f = 0xFF then Tape.str "ASCII" else if k = 0 then Tape.str "TOKEN" else Tape.str "BINARY") := by
+  have hk : typeOfFileOfByte k = if k = 0 then 0 else if k = 1 then 1 else if k = 2 then 2 else if k = 3 then 3 else 1 := by
+    unfold typeOfFileOfByte
+    by_cases h0 : k = 0
+    · subst h0; rfl
+    · by_cases h1 : k = 1
+      · subst h1; rfl
+      · by_cases h2 : k = 2
+        · subst h2; rfl
+        · by_cases h3 : k = 3
+          · subst h3; rfl
+          · rw [if_neg, if_neg h0, if_neg h1, if_neg h2, if_neg h3]; rfl
+            have : Gen.Disk.typeOfFileValues = [0, 1, 2, 3] := rfl
+            rw [this]
+            simp [h0, h1, h2, h3]
+  rw [hk]
+  unfold typeOfDataByteOfByte
+  by_cases h0 : k = 0
+  · subst h0
+    by_cases hf : f = 0xFF
+    · subst hf; exact ⟨rfl, rfl⟩
+    · simp only [if_true, if_neg hf]; exact ⟨rfl, by unfold todString; simp; rfl⟩
+  · by_cases h1 : k = 1 <;> by_cases h2 : k = 2 <;> by_cases h3 : k = 3 <;> by_cases hf : f = 0xFF <;>
+      simp only [h0, h1, h2, h3, hf, if_true, if_false] <;> first | exact ⟨rfl, rfl⟩ | (constructor <;> first | rfl | (unfold todString; simp; rfl))
 
 end Moto.C07
